@@ -397,7 +397,8 @@ Definition schedule (jobs : list (Z * specmask * zone)) (since period_ns : Z) : 
 (* 7. the spool: which jobs run at the next tick                                               *)
 
 (* A cronJob object.  Removed jobs stay referenced by the spool (disable = true, not present). *)
-Record job := mk_job { j_id : Z; j_name : Z; j_mask : specmask; j_tbl : list (Z * Z); j_dflt : Z;
+(* j_spec = cronJob.job.Spec, the string the mask was compiled from (not read by the scheduler). *)
+Record job := mk_job { j_id : Z; j_name : Z; j_spec : str; j_mask : specmask; j_tbl : list (Z * Z); j_dflt : Z;
                        j_disable : bool; j_present : bool }.
 Definition j_zone (j : job) : zone := table_off (j_tbl j) (j_dflt j).
 
@@ -427,9 +428,9 @@ Inductive op :=
 
 (* result codes: 0 = nil, 1 = ErrTaken, 2 = ErrUnknown, 3 = spec rejected *)
 Definition set_disable (b : bool) (j : job) : job :=
-  mk_job (j_id j) (j_name j) (j_mask j) (j_tbl j) (j_dflt j) b (j_present j).
+  mk_job (j_id j) (j_name j) (j_spec j) (j_mask j) (j_tbl j) (j_dflt j) b (j_present j).
 Definition set_removed (j : job) : job :=
-  mk_job (j_id j) (j_name j) (j_mask j) (j_tbl j) (j_dflt j) true false.
+  mk_job (j_id j) (j_name j) (j_spec j) (j_mask j) (j_tbl j) (j_dflt j) true false.
 
 (* func (c *cron) schedule(next): c.next = next; scheduleJob for every job of the map *)
 Definition schedule_all (next : Z) (objs : list job) (spool : list Z) : list Z :=
@@ -453,7 +454,7 @@ Definition step (c : cron) (o : op) : cron * Z :=
           match find_present name (cr_objs c) with
           | Some _ => (c, 1)
           | None =>
-              let j := mk_job (Z.of_nat (length (cr_objs c))) name m tbl dflt false true in
+              let j := mk_job (Z.of_nat (length (cr_objs c))) name spec m tbl dflt false true in
               (mk_cron (cr_next c) (cr_objs c ++ [j]) (schedule_job (cr_next c) (cr_spool c) j), 0)
           end
       end
@@ -480,3 +481,22 @@ Definition step (c : cron) (o : op) : cron * Z :=
       let next := cr_next c + 60 in
       (mk_cron next (cr_objs c) (schedule_all next (cr_objs c) []), 0)
   end.
+
+(* ------------------------------------------------------------------------------------------ *)
+(* 8. histories                                                                                *)
+
+(* what a history shows: the result code of every API call, and for every tick the minute it
+   runs and the names of the jobs whose action it starts (in spool order) *)
+Inductive ev := ERc (rc : Z) | EFire (minute : Z) (names : list Z).
+
+Definition run (c : cron) (ops : list op) : cron := fold_left (fun c o => fst (step c o)) ops c.
+
+Fixpoint trace (c : cron) (ops : list op) : list ev :=
+  match ops with
+  | [] => []
+  | o :: tl =>
+      (match o with OTick => EFire (cr_next c) (fired c) | _ => ERc (snd (step c o)) end) :: trace (fst (step c o)) tl
+  end.
+
+(* createCron at a moment whose coming minute is [next] *)
+Definition cron_init (next : Z) : cron := mk_cron next [] [].
